@@ -1,4 +1,5 @@
 import Svgbob.Model.Doc
+import Svgbob.Model.Convert
 import Svgbob.Gen.StyleSheet
 /-!
 # C18 — settings switches and entry points are consistent and leave geometry alone
@@ -79,6 +80,41 @@ theorem override_changes_size_only (len : List Char → Nat) (cfg : Cfg) (wh : I
   intro cfg'
   have := children_layout len cfg' cells css accepted groups
   simpa [cfg', sizeOf, styleNode] using this
+
+/-- **the whole conversion** (`Model/Convert.convertDoc`): for every text, the children of the root are
+style?, defs?, backdrop?, then a geometry that is a function of the text, the environment and the
+scale alone — the switches, the style sheet and an overridden size do not reach it -/
+theorem whole_conversion_layout (env : Env) (cfg : Cfg) (cat : Catalogue) (input : List Char) (root : Node)
+    (h : convertDoc env cfg cat input = some root) :
+    ∃ geo : List Node,
+      kidsOf root =
+        (if cfg.includeStyles then [styleNode cfg (front env input).css] else []) ++
+        (if cfg.includeDefs then [defsNode] else []) ++
+        (if cfg.includeBackdrop then
+          [backdropNode (sizeOf cfg (front env input).cells).1 (sizeOf cfg (front env input).cells).2]
+         else []) ++ geo ∧
+      ∀ cfg' : Cfg, cfg'.scaleN = cfg.scaleN → cfg'.scaleD = cfg.scaleD →
+        ∃ root', convertDoc env cfg' cat input = some root' ∧
+          kidsOf root' =
+            (if cfg'.includeStyles then [styleNode cfg' (front env input).css] else []) ++
+            (if cfg'.includeDefs then [defsNode] else []) ++
+            (if cfg'.includeBackdrop then
+              [backdropNode (sizeOf cfg' (front env input).cells).1 (sizeOf cfg' (front env input).cells).2]
+             else []) ++ geo := by
+  unfold convertDoc at h
+  simp only at h
+  cases he : endorseAll (segColumns env) cat (front env input).cells (front env input).escaped with
+  | none => simp [he] at h
+  | some r =>
+    obtain ⟨fs, gs⟩ := r
+    simp only [he, Option.some.injEq] at h
+    subst h
+    refine ⟨geometry (segColumns env) cfg.scaleN cfg.scaleD (fs.map (·.frag)) (gs.map fun g => g.map (·.frag)),
+      children_layout _ cfg _ _ _ _, ?_⟩
+    intro cfg' hn hd
+    refine ⟨svgRoot (segColumns env) cfg' (front env input).cells (front env input).css
+      (fs.map (·.frag)) (gs.map fun g => g.map (·.frag)), by unfold convertDoc; simp only [he], ?_⟩
+    rw [children_layout, hn, hd]
 
 /-- the style element depends on the settings only through the captured base sheet -/
 theorem style_depends_on_css0_and_legend (cfg₁ cfg₂ : Cfg) (h : cfg₁.css0 = cfg₂.css0)
